@@ -285,6 +285,26 @@ fn reuse_after_error(rep: &mut Report, v1: &Value, v2: &Value, p: &P, rng: &mut 
     }
     let mut offsets: Vec<usize> = if full1.len() <= 40 { (0..full1.len()).collect() } else { (0..12).map(|_| rng.below(full1.len())).collect() };
     offsets.dedup();
+    // one printer, several values, no failure: the sink holds the texts one after the other
+    for max in [1usize, 5, usize::MAX] {
+        rep.eval();
+        let mut pr = Printer::with_options(FailOnceWriter::new(usize::MAX / 2, max), p.to_lexpr());
+        let rs = [pr.print(v1).is_ok(), pr.print(v2).is_ok(), pr.print(v1).is_ok()];
+        let w = pr.into_inner();
+        let mut expected = full1.clone();
+        expected.extend_from_slice(&full2);
+        expected.extend_from_slice(&full1);
+        rep.count("reuse:printer-used-for-several-values");
+        if rs != [true, true, true] || w.out != expected {
+            rep.violation(
+                "reuse",
+                format!("C07:several-values-through-one-printer:{}", leaf_class(v1)),
+                format!("Printer::with_options with {}: printing {}, {}, and the first again (sink takes <= {} bytes per call): results {:?}; sink holds {:?}, expected {:?}", p.describe(), dbg_value(v1), dbg_value(v2), max, rs, show(&w.out), show(&expected)),
+                json!({"v1": dbg_value(v1), "v2": dbg_value(v2), "options_index": p.index()}),
+            );
+            return;
+        }
+    }
     for k in offsets {
         for max in [1usize, 3, usize::MAX] {
             for new_printer in [false, true] {
@@ -389,7 +409,7 @@ pub fn sets(ctx: &Ctx) -> Vec<CaseSet> {
     let (tb1, cfg1) = (tb.clone(), cfg.clone());
     out.push(CaseSet::new(
         "default-options-every-offset",
-        ctx.size(6_000, 300_000),
+        ctx.size(30_000, 300_000),
         Box::new(move |rep, rng, _| {
             let v = gen_c07_value(rng, &cfg1, &tb1);
             check(rep, &v, &P::default_(), rng, true);
@@ -399,7 +419,7 @@ pub fn sets(ctx: &Ctx) -> Vec<CaseSet> {
     let (tb2, cfg2) = (tb.clone(), cfg.clone());
     // quick: 48 option sets sampled by stride; thorough: all 576
     let n_opts: u64 = if thorough { N_P as u64 } else { 48 };
-    let per_opt = ctx.size(12, 120);
+    let per_opt = ctx.size(48, 120);
     out.push(CaseSet::new(
         "option-sets-every-offset",
         n_opts * per_opt,
@@ -417,7 +437,7 @@ pub fn sets(ctx: &Ctx) -> Vec<CaseSet> {
     let (tb3, cfg3) = (tb.clone(), cfg.clone());
     out.push(CaseSet::new(
         "larger-values-sampled-offsets",
-        ctx.size(1_600, 100_000),
+        ctx.size(8_000, 100_000),
         Box::new(move |rep, rng, _| {
             let mut c = (*cfg3).clone();
             c.max_depth = 5;
@@ -431,7 +451,7 @@ pub fn sets(ctx: &Ctx) -> Vec<CaseSet> {
     let (tb4, cfg4) = (tb.clone(), cfg.clone());
     out.push(CaseSet::new(
         "printer-reused-after-transient-error",
-        ctx.size(1_500, 100_000),
+        ctx.size(8_000, 100_000),
         Box::new(move |rep, rng, _| {
             let v1 = gen_c07_value(rng, &cfg4, &tb4);
             let v2 = gen_c07_value(rng, &cfg4, &tb4);
@@ -474,6 +494,6 @@ pub fn sets(ctx: &Ctx) -> Vec<CaseSet> {
         }),
     ));
 
-    out.push(CaseSet::new("serde-entry-points", ctx.size(1_200, 100_000), Box::new(move |rep, rng, _| serde_entry(rep, rng))));
+    out.push(CaseSet::new("serde-entry-points", ctx.size(6_000, 100_000), Box::new(move |rep, rng, _| serde_entry(rep, rng))));
     out
 }
